@@ -29,7 +29,8 @@ CONSTANTS Shapes,    \* sequence of [id, d, cfg, root]
           Deep,      \* thorough value sets?
           Props,     \* property ids whose clauses are evaluated
           ObjMode,   \* "all" | "prior"   : what SetObj chooses from
-          RawMode    \* "plans" | "corrupt" | "reduced" : what LoadRaw chooses from
+          RawMode,   \* "plans" | "corrupt" | "reduced" : what LoadRaw chooses from
+          EmptyMode  \* "plain" | "flags" : what NewEmpty chooses from
 
 VARIABLES sh, M, Mi, obj, tf, dg, pn, pc, hist, viol, aux
 
@@ -70,7 +71,15 @@ SetObj(v) == At("SetObj") /\ Do("SetObj", v, v, tf, <<>>, FALSE)
 \* the same operation with the few values that matter as PRIOR content of a target (zero, everything set)
 SetPrior(v) == At("SetPrior") /\ Do("SetObj", v, v, tf, <<>>, FALSE)
 FreshObj == At("FreshObj") /\ Do("FreshObj", NoArg, M.zero, tf, <<>>, FALSE)
-NewEmpty == At("NewEmpty") /\ Do("NewEmpty", NoArg, obj, EmptyObject(M.tt.at), <<>>, FALSE)
+\* "an object that carries the attribute types of the schema and no values": the plain one (an empty Attrs map) and, for
+\* the zero and the fully set struct, the three other forms a caller holds before anything was written: a nil Attrs map,
+\* an object flagged unknown, an object flagged null (the state of a resource that does not exist yet)
+EmptyChoices ==
+  {EmptyObject(M.tt.at)} \cup
+  (IF EmptyMode = "flags" /\ obj \in {M.zero, RichOf(M, UnitsOf(M), M.zero)}
+   THEN {VObj(FALSE, FALSE, EmptyFn, M.tt.at, TRUE), VObj(FALSE, TRUE, EmptyFn, M.tt.at, TRUE), VObj(TRUE, FALSE, EmptyFn, M.tt.at, TRUE)}
+   ELSE {})
+NewEmpty == At("NewEmpty") /\ \E e \in EmptyChoices : Do("NewEmpty", e, obj, e, <<>>, FALSE)
 Load(e, p) == At(e) /\ Do(e, p, obj, p, <<>>, FALSE)
 CopyTo == At("CopyTo") /\ LET r == ToMsg(Mi, obj, tf) IN Do("CopyTo", NoArg, obj, r.tf, r.dg, r.pn)
 CopyFrom == At("CopyFrom") /\ LET r == FromMsg(Mi, tf, obj) IN Do("CopyFrom", NoArg, r.obj, tf, r.dg, r.pn)
